@@ -436,6 +436,55 @@ pub fn audit_model() -> i32 {
     }
 }
 
+/// model audit, part 2 (DESIGN 3.4 (2)): dump (document, model verdict + tree) for the quick universes so that
+/// tools/model_audit.py can compare the specification model with CPython's tomllib
+pub fn audit_dump(out_path: &str) -> i32 {
+    use std::io::Write;
+    use std::sync::Mutex;
+    let file = match std::fs::File::create(out_path) {
+        Ok(f) => f,
+        Err(e) => {
+            println!("MACHINERY-ERROR cannot create {}: {}", out_path, e);
+            return 2;
+        }
+    };
+    let w = Mutex::new(std::io::BufWriter::new(file));
+    fn tag(n: &Node) -> serde_json::Value {
+        use serde_json::json;
+        match &n.val {
+            Val::Str(s) => json!({"t": "s", "v": s}),
+            Val::Int(i) => json!({"t": "i", "v": i.to_string()}),
+            Val::Float(f) => json!({"t": "f", "v": if f.is_nan() { "nan".to_string() } else { format!("{:016x}", f.to_bits()) }}),
+            Val::Bool(b) => json!({"t": "b", "v": b}),
+            Val::Dt(d) => json!({"t": "d", "v": refmodel::canon_dt(d)}),
+            Val::Array(a) => serde_json::Value::Array(a.iter().map(tag).collect()),
+            Val::Table(t) => serde_json::Value::Object(t.iter().map(|e| (e.key.clone(), tag(&e.node))).collect()),
+        }
+    }
+    let eval = |bytes: &[u8], _u: &'static str, acc: &mut Acc| {
+        let Ok(text) = std::str::from_utf8(bytes) else { return };
+        let verdict = match ref_parse(text) {
+            Verdict::Valid { tree, limits, .. } => {
+                if limits.any() {
+                    format!("LIMIT {}", serde_json::to_string(&tag(&tree)).unwrap())
+                } else {
+                    format!("OK {}", serde_json::to_string(&tag(&tree)).unwrap())
+                }
+            }
+            Verdict::Invalid(_) => "ERR".to_string(),
+            Verdict::UndecidedU1 => "U1".to_string(),
+        };
+        let line = format!("{}\t{}\n", serde_json::to_string(text).unwrap(), verdict);
+        w.lock().unwrap().write_all(line.as_bytes()).unwrap();
+        acc.nontrivial(bytes);
+    };
+    let mut rep = Report::new("AUDIT", Tier::Quick, "other", "model audit dump");
+    docu::run(&mut rep, Tier::Quick, &["tok-small", "stmt-small", "ctx", "num", "edge", "dt", "decor", "corpus"], &eval);
+    w.lock().unwrap().flush().unwrap();
+    println!("audit dump written: {} documents", rep.acc.evals);
+    0
+}
+
 /// replay one recorded case through the oracle of `prop`
 pub fn replay(prop: &str, path: &str) -> i32 {
     let j = read_replay(path);
